@@ -26,7 +26,7 @@ func init() { scenarios["C07"] = func() Scenario { return &scRM{} } }
 func (w *World) journalVbMap() {
 	b := w.cl.buckets[w.cfg.Bucket]
 	raw, _ := json.Marshal(b.vbmap)
-	w.jl(&journal.Ev{K: "vbmap", Vb: -1, Raw: raw, I: b.rev})
+	w.jl(&journal.Ev{K: "vbmap", Vb: -1, Raw: raw, I: b.revKey()})
 }
 
 func (s *scRM) Configure(w *World) {
@@ -58,7 +58,7 @@ func (s *scRM) Configure(w *World) {
 	c.Advances = []time.Duration{time.Millisecond, c.RMInterval / 5, c.RMInterval, 1013 * time.Millisecond}
 	w.buildCluster()
 	s.holeVb = -1
-	if c.NReplicas > 0 && t.Draw(3, nil) == 0 {
+	if c.NReplicas > 0 && t.Draw(2, nil) == 0 {
 		// the session starts with one replica slot unassigned (e.g. after a fail-over); a later map revision fills it
 		s.holeVb, s.holeR = t.Draw(c.NVb, nil), 1+t.Draw(c.NReplicas, nil)
 		w.cl.buckets[c.Bucket].vbmap[s.holeVb][s.holeR] = -1
@@ -176,7 +176,14 @@ func (s *scRM) Actions(w *World) []Action {
 		acts = append(acts, Action{ID: "mapbump", W: 1, Do: func() {
 			s.bumps++
 			w.mu.Lock()
-			b.rev++
+			if w.tape.Draw(2, nil) == 0 {
+				// the cluster was re-created / failed over hard: a newer revision epoch whose revision counter starts low again
+				b.revEpoch++
+				b.rev = 1
+				w.faultsFired["epochbump"]++
+			} else {
+				b.rev++
+			}
 			// a replica of one vBucket becomes unassigned / assigned again
 			vb := w.tape.Draw(c.NVb, nil)
 			if c.NReplicas > 0 {
